@@ -39,7 +39,7 @@ func ZZVerif_C07_BridgeFault() {
 	pa := zzNewProcessor(pathA)
 	pb := zzNewProcessor(zzverif.TempDB("b"))
 	dc := uint32(0)
-	for _, blk := range zzBlocks(1, m, &dc, "") {
+	for _, blk := range zzBlocks(1, m, &dc, "", zzverif.Param("LAYOUT")) {
 		zzverif.Assert("A: block processed", pa.ProcessBlock(ctx, blk) == nil)
 		zzverif.Assert("B: block processed", pb.ProcessBlock(ctx, zzCopyBlock(blk)) == nil)
 	}
